@@ -1,0 +1,22 @@
+//go:build verif
+
+// Contracts for the generated token package (template TokenMapSrc); keyed by the functions of the expanded package.
+// Comment-only file, compiled only with -tags=verif.
+
+package golang
+
+//@ package token
+//@
+//@ func (TokenMap).Id
+//@   prop C10 C06
+//@   # token types are never negative (Id indexes typeMap without a lower-bound test; a negative type would panic)
+//@   requires [nonneg] 0 <= tok
+//@   ensures [hit] imp(0 <= tok && tok < len(m.typeMap), result == m.typeMap[tok])
+//@   ensures [miss] imp(!(0 <= tok && tok < len(m.typeMap)), result == "unknown")
+//@   assigns nothing
+//@
+//@ func (TokenMap).Type
+//@   prop C10
+//@   ensures [hit] imp(has(m.idMap, tok), result == m.idMap[tok])
+//@   ensures [miss] imp(!has(m.idMap, tok), result == INVALID)
+//@   assigns nothing
